@@ -80,6 +80,7 @@ type Exec struct {
 
 // Notes accumulate everything assumed or abstracted during a run.
 type Notes struct {
+	Used         map[string]bool // contracts applied at call sites
 	Uncontracted map[string]bool
 	Assumed      map[string]bool
 	Inlined      map[string]bool
@@ -1245,6 +1246,18 @@ func (x *Exec) valuesEqual(a, b Value) *Term {
 		// comparison against nil of different shape (e.g. slice == nil)
 		panic(unsupported(fmt.Sprintf("comparison of %s with %s", a.T, b.T)))
 	}
+	if _, ok := a.T.Underlying().(*types.Interface); ok && len(a.L) == 2 {
+		// an interface is nil iff its dynamic type is absent
+		isNil := func(v Value) bool {
+			return v.L[0].Op == "intlit" && v.L[0].Val.Sign() == 0 && v.L[1].Op == "intlit" && v.L[1].Val.Sign() == 0
+		}
+		if isNil(b) {
+			return c.Eq(a.L[0], c.IntLit(0))
+		}
+		if isNil(a) {
+			return c.Eq(b.L[0], c.IntLit(0))
+		}
+	}
 	if _, ok := a.T.Underlying().(*types.Slice); ok {
 		// only s == nil is legal Go
 		if isNilSlice(b) {
@@ -1454,7 +1467,20 @@ func (x *Exec) mapKeySort(mt *types.Map) *Sort {
 	if len(lay.Leaves) == 1 {
 		return lay.Leaves[0].Sort
 	}
-	panic(unsupported("map with composite key " + mt.String()))
+	// composite key (struct): a tuple datatype over the leaf sorts
+	fields := make([]*Sort, len(lay.Leaves))
+	for i, lf := range lay.Leaves {
+		fields[i] = lf.Sort
+	}
+	return TupleSort("Key$"+sanitize(typeKey(mt.Key())), fields)
+}
+
+// mapKey turns a key value into the SMT index term of its map.
+func (x *Exec) mapKey(mt *types.Map, k Value) *Term {
+	if len(k.L) == 1 {
+		return k.L[0]
+	}
+	return x.C.MkTuple(x.mapKeySort(mt), k.L...)
 }
 
 func (x *Exec) mapPresent(st *State, mt *types.Map) (string, *Sort) {
@@ -1480,14 +1506,14 @@ func (x *Exec) mapUpdate(st *State, m, k, v Value, pos token.Pos) {
 	x.boundsObl(st, "mapnil", c.Distinct(m.L[0], c.IntLit(0)), pos, "assignment to entry in non-nil map")
 	pn, ps := x.mapPresent(st, mt)
 	cmp := x.comp(st, pn, ps)
-	x.setComp(st, pn, ps, c.Store(cmp, m.L[0], c.Store(c.Select(cmp, m.L[0]), k.L[0], c.True())))
+	x.setComp(st, pn, ps, c.Store(cmp, m.L[0], c.Store(c.Select(cmp, m.L[0]), x.mapKey(mt, k), c.True())))
 	lay := LayoutOf(mt.Elem())
 	ks := x.mapKeySort(mt)
 	for i, lf := range lay.Leaves {
 		name := x.mapValComp(mt, i)
 		s := ArraySort(ks, lf.Sort)
 		vc := x.comp(st, name, s)
-		x.setComp(st, name, s, c.Store(vc, m.L[0], c.Store(c.Select(vc, m.L[0]), k.L[0], v.L[i])))
+		x.setComp(st, name, s, c.Store(vc, m.L[0], c.Store(c.Select(vc, m.L[0]), x.mapKey(mt, k), v.L[i])))
 	}
 }
 
@@ -1497,7 +1523,7 @@ func (x *Exec) mapDelete(st *State, m, k Value) {
 	pn, ps := x.mapPresent(st, mt)
 	cmp := x.comp(st, pn, ps)
 	// delete on a nil map is a no-op; the nil map has no entries by the axiom below
-	x.setComp(st, pn, ps, c.Store(cmp, m.L[0], c.Store(c.Select(cmp, m.L[0]), k.L[0], c.False())))
+	x.setComp(st, pn, ps, c.Store(cmp, m.L[0], c.Store(c.Select(cmp, m.L[0]), x.mapKey(mt, k), c.False())))
 }
 
 func (x *Exec) lookup(st *State, ins *ssa.Lookup) Value {
@@ -1511,13 +1537,13 @@ func (x *Exec) lookup(st *State, ins *ssa.Lookup) Value {
 	mt := xv.T.Underlying().(*types.Map)
 	k := x.operand(st, ins.Index)
 	pn, ps := x.mapPresent(st, mt)
-	present := c.And(c.Distinct(xv.L[0], c.IntLit(0)), c.Select(c.Select(x.comp(st, pn, ps), xv.L[0]), k.L[0]))
+	present := c.And(c.Distinct(xv.L[0], c.IntLit(0)), c.Select(c.Select(x.comp(st, pn, ps), xv.L[0]), x.mapKey(mt, k)))
 	lay := LayoutOf(mt.Elem())
 	ks := x.mapKeySort(mt)
 	val := Value{T: mt.Elem(), L: make([]*Term, len(lay.Leaves))}
 	for i, lf := range lay.Leaves {
 		s := ArraySort(ks, lf.Sort)
-		val.L[i] = c.Ite(present, c.Select(c.Select(x.comp(st, x.mapValComp(mt, i), s), xv.L[0]), k.L[0]), x.zeroLeaf(lf.Sort))
+		val.L[i] = c.Ite(present, c.Select(c.Select(x.comp(st, x.mapValComp(mt, i), s), xv.L[0]), x.mapKey(mt, k)), x.zeroLeaf(lf.Sort))
 	}
 	val = x.wfLoaded(st, val)
 	if ins.CommaOk {
